@@ -297,7 +297,7 @@ func (b *bmcSys) check() {
 		b.symbolizeObject(m, o)
 	}
 	for round := 0; ; round++ {
-		b.procs, b.locs, b.outcomes = nil, nil, nil
+		b.procs, b.locs, b.outcomes, b.spawned = nil, nil, nil, nil
 		b.extractRound++
 		for i, p := range m.procs {
 			bp := &bproc{idx: i, p: p}
@@ -397,6 +397,36 @@ func (u *unroller) at(t *term.T, extra map[*term.T]*term.T) *term.T {
 }
 
 func (b *bmcSys) independent(t, s *btrans) bool {
+	// a transition that starts a goroutine (writes the pc of a spawned process)
+	// depends on every transition of that process and on every other spawn of it
+	if len(b.spawned) > 0 {
+		owner := map[*term.T]*bproc{}
+		for _, p := range b.procs {
+			if p.idle != nil {
+				owner[p.pc] = p
+			}
+		}
+		touches := func(x, y *btrans) bool {
+			for v := range x.upd {
+				p := owner[v]
+				if p == nil {
+					continue
+				}
+				for _, q := range y.procs {
+					if q == p {
+						return true
+					}
+				}
+				if _, ok := y.upd[v]; ok {
+					return true
+				}
+			}
+			return false
+		}
+		if touches(t, s) || touches(s, t) {
+			return false
+		}
+	}
 	for _, p := range t.procs {
 		for _, q := range s.procs {
 			if p == q {
@@ -725,16 +755,71 @@ func (b *bmcSys) unrollAndSolve() {
 	b.logf("  unrolled K=%d complete=%v terms=%d indep-pairs=%d solver so far %.1fs (%d queries)", u.k, complete, f.NumTerms(), len(u.indep), s.Stats.Seconds, s.Stats.Queries)
 
 	// properties
+	// runs that exceed a limit of the model (instances of a spawned goroutine, ...)
+	// say nothing about the property: they make the job inconclusive and are
+	// excluded from the property queries
+	limitHit := f.False()
+	for l, fv := range b.failVars {
+		if strings.HasPrefix(l, modelLimit) {
+			limitHit = f.Or(limitHit, u.cur[fv])
+		}
+	}
 	query := func(label string, bad *term.T) {
 		if bad.IsFalse() {
 			return
 		}
-		r, err := s.CheckWith(true, bad)
+		if strings.HasPrefix(label, modelLimit) {
+			r, err := s.CheckWith(false, bad)
+			if err != nil || r != smt.Unsat {
+				b.res.Unsupported = append(b.res.Unsupported, fmt.Sprintf("%s (%v)", label, r))
+			}
+			return
+		}
+		bad = f.And(bad, f.Not(limitHit))
+		r, err := s.CheckWith(false, bad)
 		if err != nil || r == smt.Unknown {
 			b.res.Unknown = append(b.res.Unknown, fmt.Sprintf("property %s: %v %v", label, r, err))
 			return
 		}
 		if r == smt.Sat {
+			// a shortest violating run (stutter is absorbing: "stutters from step L on"
+			// is monotone in L): short runs replay far more reliably against the real
+			// scheduler than whatever model the solver happens to return
+			stops := func(L int) *term.T { return f.Eq(u.sch[L], f.IntC(int64(u.stutter))) }
+			lo, hi := 0, u.k // invariant: no violating run stutters from lo-1 on; one exists within hi steps
+			best := bad
+			for lo < hi {
+				mid := (lo + hi) / 2
+				if mid >= u.k {
+					break
+				}
+				rr, e2 := s.CheckWith(false, f.And(bad, stops(mid)))
+				if e2 != nil || rr == smt.Unknown {
+					break
+				}
+				if rr == smt.Sat {
+					hi = mid
+					best = f.And(bad, stops(mid))
+				} else {
+					lo = mid + 1
+				}
+			}
+			bad = best
+			if b.clock != 0 && b.now != nil && u.cur[b.now] != nil {
+				// ... and, under a virtual clock, one that takes little virtual time
+				for _, lim := range []uint64{1000, 1000000} {
+					small := f.And(bad, f.ULe(u.cur[b.now], f.BVC(clockW, lim)))
+					if rr, e2 := s.CheckWith(false, small); e2 == nil && rr == smt.Sat {
+						bad = small
+						break
+					}
+				}
+			}
+			r, err = s.CheckWith(true, bad)
+			if err != nil || r != smt.Sat {
+				b.res.Unknown = append(b.res.Unknown, fmt.Sprintf("property %s (minimised query): %v %v", label, r, err))
+				return
+			}
 			v := b.decode(u, label, bad)
 			b.res.Violations = append(b.res.Violations, v)
 			s.Pop()
